@@ -24,6 +24,7 @@ import (
 	"github.com/cnotch/ipchub/network/socket/buffered"
 	"github.com/cnotch/ipchub/stats"
 	"github.com/cnotch/ipchub/utils"
+	"github.com/cnotch/ipchub/utils/verifhook"
 	"github.com/cnotch/xlog"
 	"github.com/pixelbender/go-sdp/sdp"
 )
@@ -306,6 +307,8 @@ func (c *PullClient) requestPlay() (err error) {
 }
 
 func (c *PullClient) playStream() {
+	verifhook.Point("rtsp.pull.enter", c)
+	defer verifhook.Point("rtsp.pull.exit", c)
 	defer func() {
 		if r := recover(); r != nil {
 			c.logger.Errorf("pull stream panic; %v \n %s", r, debug.Stack())
